@@ -491,7 +491,12 @@ def parseEntry (j : Json) : Except String (Entry Nat) := do
   let path ← (← j.getObjVal? "path").getStr?
   match t with
   | "dir" => pure (.dir path (← parseMeta j))
-  | "file" => pure (.file path (← parseMeta j) (List.replicate (← (← j.getObjVal? "len").getNat?) (← (← j.getObjVal? "cid").getNat?)))
+  | "file" =>
+    -- `pad`: zeros following the content in the entry (a file that shrank while it was archived; content ids start at 1)
+    let pad := match j.getObjVal? "pad" with
+      | .ok p => (p.getNat?).toOption.getD 0
+      | _ => 0
+    pure (.file path (← parseMeta j) (List.replicate (← (← j.getObjVal? "len").getNat?) (← (← j.getObjVal? "cid").getNat?) ++ List.replicate pad 0))
   | "symlink" => pure (.symlink path (← parseMeta j) (← (← j.getObjVal? "target").getStr?))
   | _ => pure (.other path)
 
